@@ -63,6 +63,14 @@ func caseC02(c *Ctx) {
 	p.W["Reset"] = 2
 	p.W["DumpKeep"], p.W["ResetLoad"] = 3, 6
 	p.Zero("QueryCheck", "RegisterType", "Set", "WritePtr", "Assign")
+	if c.Case%10 == 3 {
+		// populations beyond the default capacity increment (128) and several bitset words
+		p.MaxEnts = 330
+		p.MaxBatch = 150
+		p.Steps = 140
+		cfg.CapInc = Pick(c.R, []int{128, 128, 64, 100})
+		p.Scale(3, "NewBatch")
+	}
 	o := Opts{Model: true, Sweep: c.Case%2 == 0, Inv: true, Ledger: true, Track: true, NoTrans: true}
 	s := NewSess(cfg, o)
 	g := NewGen(c.R, s, p)
@@ -159,7 +167,35 @@ func caseC06(c *Ctx) {
 	p.W["Reset"] = 2
 	p.Zero("RegisterType", "Set", "WritePtr", "Assign")
 	o := Opts{Model: true, Inv: true, Targets: true, Sweep: true, Track: true, Cache: true, NoTrans: true}
-	s := RunHistory(c.R, cfg, o, p)
+	s := NewSess(cfg, o)
+	g := NewGen(c.R, s, p)
+	if c.Case%8 == 5 {
+		// more tables on one relation node than fit in one page of the paged storage (32), with their own targets
+		rels := g.relsUsed()
+		if len(rels) > 0 {
+			rel := Pick(c.R, rels)
+			ids := append(g.subsetAny(g.nonRels(), 2), rel)
+			k := 33 + c.R.Intn(40)
+			p.MaxEnts = 3*k + 40
+			parents := []*Ent{}
+			for i := 0; i < k && !s.Failed(); i++ {
+				out := s.Do(&Op{K: "NewEntity", Add: g.subsetAny(g.nonRels(), 1)})
+				if len(out.Ents) == 1 {
+					parents = append(parents, entP(out.Ents[0]))
+				}
+			}
+			for _, pe := range parents {
+				if s.Failed() {
+					break
+				}
+				s.Do(&Op{K: "BuilderNew", Add: ids, Rel: ip(rel), T: pe})
+			}
+			s.Cov.N["many_targets_on_one_node"]++
+		}
+	}
+	for i := 0; i < p.Steps && !s.Failed(); i++ {
+		s.Do(g.Next())
+	}
 	n := s.Cov.N
 	finish(c, s, (n["table_retires"] >= 1 && n["table_reuses"] >= 1) || (!HooksOn && n["death_with_children"] >= 1))
 }
